@@ -337,6 +337,44 @@ def run_ctor(case):
         evals += 1
         if have != 1:
             fails.append(_fail("field from_string(xs)(xs) == 1", {"xs": "".join(x)}, have, 1))
+    # explicit numeric weights, INCLUDING the falsy ones (0, 0.0) and values outside [0, 1]
+    for x in strs:
+        for cls in (base.WFSA, FieldWFSA):
+            for w in (0, 0.0, 0.5, 1.0, 2.0, -1.0):
+                m = _call(lambda: cls.from_string("".join(x), Float, w=w))
+                for y in strs:
+                    have = m if isinstance(m, str) else _call(m, "".join(y))
+                    evals += 1
+                    want = w if y == x else 0
+                    if isinstance(have, str) or have != want:
+                        fails.append(_fail("from_string(xs, Float, w)(ys) == w if ys == xs else 0", {"class": cls.__name__, "xs": "".join(x), "w": repr(w), "ys": "".join(y)}, have, want))
+                        break
+    for w in (Poly.zero,):
+        m = _call(lambda: base.WFSA.from_string("ab", Poly, w=w))
+        evals += 1
+        if table_of(m) != {}:
+            fails.append(_fail("from_string(xs, zero) is the empty language", {"xs": "ab"}, table_of(m), {}))
+        m = _call(lambda: base.WFSA.lift("a", w))
+        evals += 1
+        if table_of(m) != {}:
+            fails.append(_fail("lift(x, zero) is the empty language", {"x": "a"}, table_of(m), {}))
+    # non-commuting weights: evaluation by the machine's own __call__ keeps the factors in path order
+    from vf.semirings import NCPoly
+
+    for x in strs:
+        for y in strs:
+            u, v = NCPoly.var(1), NCPoly.var(2)
+
+            def both():
+                A = base.WFSA.from_string("".join(x), NCPoly, w=u)
+                B = base.WFSA.from_string("".join(y), NCPoly, w=v)
+                return A("".join(x)), (A * B)("".join(x + y)), (A + B)("".join(y))
+
+            r = _call(both)
+            evals += 1
+            want = (u, u * v, (u + v) if x == y else v)
+            if isinstance(r, str) or tuple(r) != want:
+                fails.append(_fail("from_string / product / union evaluated by __call__ over a non-commutative semiring", {"xs": "".join(x), "ys": "".join(y)}, r, want))
     strs3 = strs + [("a", "b", "a"), ("a", "a", "b")]
     for k in (0, 1, 2, 3):
         # every ORDER of every set of strings (a member may be a proper prefix of an earlier or later one)
